@@ -5,6 +5,8 @@ package bbolt
 // pages are reclaimed as soon as no reader needs them), C03a (ids and visibility order).
 
 import (
+	"errors"
+
 	fl "go.etcd.io/bbolt/internal/freelist"
 	zz "go.etcd.io/bbolt/internal/zzverif"
 )
@@ -94,6 +96,8 @@ func zzEventOp(tx *Tx, c zzCfg) error {
 	return nil
 }
 
+var zzErrBody = errors.New("transaction body fails")
+
 func zzFreeSet(db *DB) map[uint64]bool {
 	out := map[uint64]bool{}
 	for _, id := range fl.ZZFreeIDs(db.freelist) {
@@ -128,6 +132,9 @@ func HarnessEvents() {
 		if zz.Param("faults", 1) == 1 {
 			kinds = append(kinds, 4)
 		}
+		if focus&zzFocusSerial != 0 {
+			kinds = append(kinds, 5, 6) // managed transactions whose function fails / panics
+		}
 		kind := kinds[zz.Choose(len(kinds))]
 		switch kind {
 		case 0:
@@ -147,6 +154,31 @@ func HarnessEvents() {
 			i := zz.Choose(len(readers))
 			zz.Assert(readers[i].tx.Rollback() == nil, "events/reader-close")
 			readers = append(readers[:i], readers[i+1:]...)
+		case 5, 6:
+			// db.Update whose function returns an error (5) or panics (6): nothing becomes visible,
+			// the id is not consumed, every lock is released
+			var uerr error
+			panicked := zzCatch(func() {
+				uerr = db.Update(func(tx *Tx) error {
+					if err := zzEventOp(tx, c); err != nil {
+						return err
+					}
+					zz.Assert(uint64(tx.ID()) == lastTxid+1, "events/managed-writer-id")
+					if kind == 6 {
+						panic("transaction body panics")
+					}
+					return zzErrBody
+				})
+			})
+			if kind == 5 {
+				zz.Reach("ev-update-error")
+				zz.Assert(!panicked && uerr == zzErrBody, "events/update-returns-the-functions-error")
+			} else {
+				zz.Reach("ev-update-panic")
+				zz.Assert(panicked, "events/update-propagates-the-panic")
+			}
+			zzLocksFree(db, "events/after-failed-update", len(readers))
+			zz.Assert(zzSameKVs(zzViewDump(db, "events/after-failed-update"), cur), "events/failed-update-changes-nothing")
 		default:
 			noReaders := len(readers) == 0
 			if focus&zzFocusWrites != 0 {
@@ -228,5 +260,34 @@ func HarnessEvents() {
 	}
 	zzCheckAll(db, path, c, "events/final")
 	zz.Assert(db.Close() == nil, "events/close")
+	zz.Reach("done")
+}
+
+
+// HarnessSteady (C10): k equal-size overwrites of one key with no reader open: the high-water mark
+// stops growing after the third commit, and nothing stays pending at any writer begin.
+func HarnessSteady() {
+	c := zzConfig()
+	path := zz.TempPath("steady.db")
+	db := zzMustOpen(path, c, "steady")
+	zzSetup(db, 1)
+	k := zz.Param("k", 8)
+	hwm := make([]uint64, 0, k)
+	v0 := zz.U8("fill")
+	for i := 0; i < k; i++ {
+		err := db.Update(func(tx *Tx) error {
+			zz.Assert(db.freelist.PendingCount() == 0, "steady/nothing-pending-at-writer-begin")
+			v := zzVal(c.pageSize*3/10, byte(i))
+			v[0] = v0
+			return tx.Bucket([]byte("b")).Put([]byte("k08"), v)
+		})
+		zz.Assert(err == nil, "steady/update")
+		_ = db.View(func(tx *Tx) error { hwm = append(hwm, uint64(tx.meta.Pgid())); return nil })
+	}
+	for i := 3; i < k; i++ {
+		zz.Assert(hwm[i] == hwm[2], "steady/high-water-mark-stable-after-third-commit")
+	}
+	zz.Assert(zz.FileSize(path) <= int64(hwm[2])*int64(c.pageSize)+int64(32<<10), "steady/file-does-not-grow")
+	zz.Assert(db.Close() == nil, "steady/close")
 	zz.Reach("done")
 }
